@@ -200,6 +200,15 @@ def run_lookup_case(x):
                         probs.append(f"lookup of absent {l} did not raise")
         if [d.letter for d in X] != list(x):
             probs.append("iteration order")
+        if not x:
+            # a very large set (16 dimensions of 16 items): total_size is the product of the shape, as a Python integer
+            import string
+
+            from flodym import DimensionSet as _DS
+
+            big = _DS(dim_list=[S.make_dimension(l, tuple(f"{l}{i}" for i in range(16)), name="Dim" + l.upper()) for l in string.ascii_lowercase[:16]])
+            if tuple(big.shape) != (16,) * 16 or big.total_size != 16 ** 16:
+                probs.append(f"16 dimensions of 16 items: total_size {big.total_size}, product of the shape {16 ** 16}")
         # two dimensions that share a NAME but not the letter (e.g. origin and destination region): whatever a lookup
         # by that name gives, lookups by letter and position still agree with the order
         from flodym import DimensionSet
@@ -276,6 +285,8 @@ def e2_ops():
                 ops.append(dict(op="expand_by2", tgt=tgt, inplace=inplace, dim=dim, order="first"))
                 ops.append(dict(op="expand_by2", tgt=tgt, inplace=inplace, dim=dim, order="last"))
                 ops.append(dict(op="replace", tgt=tgt, inplace=inplace, dim=dim, key="first"))
+            # two NEW dimensions that share a letter, added in one call
+            ops.append(dict(op="expand_by_twins", tgt=tgt, inplace=inplace))
             # the replacement carries the NAME of the replaced dimension but the LETTER of another one (a clash)
             ops.append(dict(op="replace", tgt=tgt, inplace=inplace, dim="clash-samename", key="first"))
             ops.append(dict(op="drop", tgt=tgt, inplace=inplace, key="first"))
@@ -346,7 +357,12 @@ def apply_op(st, op, check):
     must_raise = False
     new_model = None  # model of the result (in-place: new content of target; else: new S)
     inplace = op.get("inplace", False)
-    if name == "expand_by2":
+    if name == "expand_by_twins":
+        # two dimensions that are both new to the set but carry the SAME letter: a clash among the added ones
+        must_raise = True
+        new_model = None
+        call = lambda: obj.expand_by([D("e"), D("e", 1)], inplace=inplace)
+    elif name == "expand_by2":
         # two dimensions at once: a fresh one (f) together with `dim` (fresh e or a clash), in both orders
         dim, ml, clash = pick_dim(op["dim"], mod)
         other = D("f")
@@ -520,7 +536,7 @@ def run_unit(u):
                     rec(*run_pair_case(x, y, op, "set-variant"))
                 if op in ("+", "&", "|", "-") and (x or y):  # sets whose dimensions have no items are still sets of dimensions
                     rec(*run_pair_case(x, y, op, "set-zero"))
-                if len(y) == 1 and op != "^":  # a single Dimension as right operand (accepted by the signatures) acts as the one-element set
+                if len(y) == 1:  # a single Dimension as right operand (accepted by the signatures) acts as the one-element set
                     rec(*run_pair_case(x, y, op, "dimension"))
         # '+' with a single Dimension as LEFT operand: a one-element set; overlap must be refused as well
         if len(x) >= 1:
